@@ -175,8 +175,9 @@ macro_rules! matches_instance {
             if tb.first() == Some(&b'$') {
                 assert!(!got, "matches: a $-topic must be matched by no filter");
             }
-            kani::cover!($F == 0 || (vt && vf && got), "valid pair that matches");
-            kani::cover!(vt && !got, "pair that does not match");
+            // (no valid filter of 0 bytes; no 4-byte filter matches the empty topic)
+            kani::cover!($F == 0 || ($T == 0 && $F >= 4) || (vt && vf && got), "valid pair that matches");
+            kani::cover!(($T == 0 && $F == 0) || (vt && !got), "pair that does not match");
         });
     };
 }
